@@ -179,9 +179,11 @@ func (r *vsRig) drainActive(scq *sizeClassQueue, w *vsWorker) bool {
 }
 
 func (r *vsRig) drainRequest(w *vsWorker) *buildqueuestate.AddOrRemoveDrainRequest {
-	key := r.queueOfWorker(w).getKey()
 	return &buildqueuestate.AddOrRemoveDrainRequest{
-		SizeClassQueueName: key.getSizeClassQueueName(),
+		SizeClassQueueName: &buildqueuestate.SizeClassQueueName{
+			PlatformQueueName: &buildqueuestate.PlatformQueueName{InstanceNamePrefix: w.prefix, Platform: w.platform},
+			SizeClass:         w.sizeClass,
+		},
 		WorkerIdPattern:    w.id,
 	}
 }
